@@ -95,7 +95,7 @@ func runAllEsc(obs []*Oblig, outDir string, timeoutS int, workers int, which []s
 			}
 		}
 		idx = rest
-		workers = workers / 3
+		workers = workers / len(solvers)
 		if workers < 1 {
 			workers = 1
 		}
